@@ -3,6 +3,7 @@
 # never merged) and list its /repo commits.
 n="$1"
 cd /verif
+git add -A; git commit -qm "evidence/work before merging agent-$n" >/dev/null 2>&1
 git merge --no-commit --no-ff "agent-$n" >/dev/null 2>&1
 for f in MANIFEST.json known_findings.json DESIGN.md coq/.nra.cache coq/.lia.cache coq/.nia.cache; do git checkout --ours -- $f 2>/dev/null; git add $f 2>/dev/null; done
 for f in $(git diff --name-only --diff-filter=U | grep '^evidence/'); do git checkout --ours -- $f; git add $f; done
